@@ -223,6 +223,7 @@ func init() {
 		if 1 != len(args) {
 			qsBrokerShutdown(&rep)
 			qsBlockedWriter(&rep)
+			qsTearDown(&rep)
 		}
 		json.NewEncoder(os.Stdout).Encode(rep)
 		return 0
@@ -461,6 +462,130 @@ func qsBlockedWriter(rep *qsReport) {
 	if delivered != recs {
 		rep.Viols = append(rep.Viols, qsViol{Prop: "C11", Sig: "quiet-spell/input-records-differ", Case: c,
 			What: fmt.Sprintf("an input stream that took a minute to accept the line it was given: %d line(s) were delivered to the shell in the end, the log has %d input record(s)", delivered, recs)})
+	}
+	rep.Scenarios++
+	rep.TimersArmed += vtime.Created()
+}
+
+// qsHeldLog blocks in the record that says a stream has disconnected.
+type qsHeldLog struct {
+	reached, release chan struct{}
+	once             *sync.Once
+}
+
+func (h qsHeldLog) Enabled(context.Context, slog.Level) bool { return true }
+func (h qsHeldLog) WithAttrs([]slog.Attr) slog.Handler       { return h }
+func (h qsHeldLog) WithGroup(string) slog.Handler            { return h }
+func (h qsHeldLog) Handle(_ context.Context, r slog.Record) error {
+	if iobroker.LMDisconnected == r.Message {
+		h.once.Do(func() { close(h.reached) })
+		<-h.release
+	}
+	return nil
+}
+
+// qsTearDown: C01's "any attempt made while the previous shell is still being
+// torn down is refused", with time passing and the system clock being set:
+// a shell whose input has ended and whose output stream is held up between
+// the end of its proxying and its release (a log sink that blocks), for
+// seconds, for twenty minutes, across a wall-clock step forward and back.
+func qsTearDown(rep *qsReport) {
+	c := qsCase{Flavour: "vclock", Kind: "tear-down-that-lasts", Spell: "20m0s"}
+	vtime.Reset(time.Now())
+	ich := make(chan string, 16)
+	och := make(chan opshell.CLine, 4096)
+	b, err := hworld.NewBroker(ich, och)
+	if nil != err {
+		ev.Broken("%s", err)
+	}
+	ctx, cancel := context.WithCancel(context.Background())
+	doRet := make(chan error, 1)
+	go func() { doRet <- b.Do(ctx) }()
+	quiet := slog.New(slog.NewTextHandler(io.Discard, nil))
+	waitFor := func(sub string) bool {
+		deadline := time.After(hworld.Watchdog)
+		for {
+			select {
+			case cl := <-och:
+				if strings.Contains(cl.Line, sub) {
+					return true
+				}
+			case <-deadline:
+				return false
+			}
+		}
+	}
+	held := qsHeldLog{reached: make(chan struct{}), release: make(chan struct{}), once: new(sync.Once)}
+	inCtx, inCancel := context.WithCancel(context.Background())
+	outCtx, outCancel := context.WithCancel(context.Background())
+	pr, pw := io.Pipe()
+	inDone, outDone := make(chan struct{}), make(chan struct{})
+	go func() { defer close(inDone); b.ConnectIn(inCtx, quiet, "old-in", io.Discard, "kittens") }()
+	if !waitFor("Input connected") {
+		ev.Broken("quiet-spell worker (tear-down): the input stream never attached")
+	}
+	go func() { defer close(outDone); b.ConnectOut(outCtx, slog.New(held), "old-out", pr, "kittens") }()
+	if !waitFor(iobroker.ShellReadyMessage) {
+		ev.Broken("quiet-spell worker (tear-down): the shell never became ready")
+	}
+	inCancel()
+	<-inDone
+	select {
+	case <-held.reached:
+	case <-time.After(hworld.Watchdog):
+		ev.Broken("quiet-spell worker (tear-down): the output stream did not end after the input had")
+	}
+	attempt := func(when string) {
+		for _, k := range []struct{ kind, key string }{{"in", "moose"}, {"out", "moose"}, {"in", "kittens"}, {"out", "kittens"}, {"io", ""}} {
+			actx, acancel := context.WithCancel(context.Background())
+			done := make(chan struct{})
+			ar, aw := io.Pipe()
+			go func() {
+				defer close(done)
+				switch k.kind {
+				case "in":
+					b.ConnectIn(actx, quiet, "new", io.Discard, k.key)
+				case "out":
+					b.ConnectOut(actx, quiet, "new", ar, k.key)
+				default:
+					b.ConnectInOut(actx, quiet, "new", io.Discard, ar)
+				}
+			}()
+			select {
+			case <-done: /* Refused, ended at once. */
+			case <-time.After(hworld.Watchdog):
+				rep.Viols = append(rep.Viols, qsViol{Prop: "C01", Sig: "quiet-spell/admitted-during-tear-down/" + k.kind, Case: c,
+					What: fmt.Sprintf("shell \"kittens\": input ended, output stream held up before its release (a log sink that blocks); %s a new %s stream with ID %q was not refused (its Connect call is still running after %v)", when, k.kind, k.key, hworld.Watchdog)})
+			}
+			acancel()
+			aw.Close()
+			<-done
+		}
+	}
+	step := func(d time.Duration) {
+		for i := 0; i < 40; i++ {
+			time.Sleep(time.Millisecond)
+			rep.Firings += vtime.AdvanceN(d/40, func() { time.Sleep(time.Millisecond) }, qsMaxFirings)
+		}
+	}
+	attempt("at once,")
+	step(31 * time.Second)
+	attempt("31 s later,")
+	step(20 * time.Minute)
+	attempt("20 minutes later,")
+	vtime.StepWall(time.Hour)
+	attempt("after the system clock was set forward by an hour,")
+	vtime.StepWall(-2 * time.Hour)
+	step(time.Second)
+	attempt("after the system clock was set back by two hours,")
+	close(held.release)
+	outCancel()
+	pw.Close()
+	<-outDone
+	cancel()
+	select {
+	case <-doRet:
+	case <-time.After(hworld.Watchdog):
 	}
 	rep.Scenarios++
 	rep.TimersArmed += vtime.Created()
